@@ -396,17 +396,18 @@ def poly_reference(ploidy, p0, p1):
                     nxt[pi] = min(cur[pj] + sum(1 for i in range(ploidy) if pi[i] != pj[i]) for pj in perms)
             cur = nxt
         sw = min(cur.values()) / ploidy
-    hm = tot = None
+    hm = None
     if len(match) == n:
         hm = min(sum(ham(h1[i], h0[pi[i]]) for i in range(ploidy)) for pi in perms) / ploidy
-        cur = {pi: sum(1 for i in range(ploidy) if h0[pi[i]][0] != h1[i][0]) for pi in perms}
-        for j in range(1, n):
-            nxt = {}
-            for pi in perms:
-                fl = sum(1 for i in range(ploidy) if h0[pi[i]][j] != h1[i][j])
-                nxt[pi] = fl + min(cur[pj] + sum(1 for i in range(ploidy) if pi[i] != pj[i]) for pj in perms)
-            cur = nxt
-        tot = min(cur.values()) / ploidy
+    # switches + flips with unit costs over all positions (defined whether or not the genotypes coincide)
+    cur = {pi: sum(1 for i in range(ploidy) if h0[pi[i]][0] != h1[i][0]) for pi in perms}
+    for j in range(1, n):
+        nxt = {}
+        for pi in perms:
+            fl = sum(1 for i in range(ploidy) if h0[pi[i]][j] != h1[i][j])
+            nxt[pi] = fl + min(cur[pj] + sum(1 for i in range(ploidy) if pi[i] != pj[i]) for pj in perms)
+        cur = nxt
+    tot = min(cur.values()) / ploidy
     return n - len(match), hm, sw, tot
 
 
@@ -430,7 +431,7 @@ def judge_polyfn(inst):
             for d in range(1, ploidy):
                 base = tuple([1] * d + [0] * (ploidy - d))
                 if tuple(sorted(base)) != tuple(sorted(col)):
-                    opts.append(base)
+                    opts += sorted(set(itertools.permutations(base)))
         cols1.append(opts)
     s0 = ["".join(str(p0[j][i]) for j in range(n)) for i in range(ploidy)]
     for p1 in itertools.product(*cols1):
@@ -447,11 +448,11 @@ def judge_polyfn(inst):
             bad.append(f"different genotypes {e.diff_genotypes} != {dg}")
         if abs(float(e.switches) - sw) > 1e-9:
             bad.append(f"switch errors {e.switches}, brute force over permutation sequences on the matching positions {sw}")
+        if abs(e.switch_flips.switches + e.switch_flips.flips - tot) > 1e-9:
+            bad.append(f"switch/flip {e.switch_flips} sums to {e.switch_flips.switches + e.switch_flips.flips}, minimum total {tot}")
         if hm is not None:
             if abs(float(e.hamming) - hm) > 1e-9:
                 bad.append(f"Hamming {e.hamming}, minimum over correspondences {hm}")
-            if abs(e.switch_flips.switches + e.switch_flips.flips - tot) > 1e-9:
-                bad.append(f"switch/flip {e.switch_flips} sums to {e.switch_flips.switches + e.switch_flips.flips}, minimum total {tot}")
             if sw > 0:
                 nt += 1
         if bad and len(viols) < 4:
@@ -529,7 +530,7 @@ def space(tier):
         elif budget:
             firsts = firsts[:: max(1, len(firsts) // (budget * 4))]
         for p0 in firsts:
-            yield {"kind": "polyfn", "ploidy": ploidy, "p0": [list(a) for a in p0], "dosage_variants": n <= 3 and ploidy == 3}
+            yield {"kind": "polyfn", "ploidy": ploidy, "p0": [list(a) for a in p0], "dosage_variants": ploidy == 3 and n <= 4}
     # polyploid, one block, through the files (binds the command line to compare_block)
     for ploidy, nmax in ((3, 3), (4, 2)) + (((3, 4), (4, 3)) if T else ()):
         arr = []
